@@ -2,6 +2,7 @@
 import re
 
 T = "RsslVerif.Thm.C03."
+TX = "RsslVerif.Thm.C03X."
 
 NONCONST = set("vrkun")
 
@@ -10,8 +11,11 @@ def nontrivial(req, obs):
     f = req.split("\t")
     if f[0] == "C03.conv":
         return True
-    if f[0] == "C03.type":
+    if f[0] in ("C03.type", "C03.typex"):
         return obs.count(" ") >= 1            # at least two typed nodes
+    if f[0] == "C03.progx":
+        return len(f) >= 7 and any(k in f[5] for k in ("(un ", "(bin ", "(tern ", "(call ", "(icall ", "(mem ", "(idx ", "(ctor ",
+                                                       "(ret ", "(decl ", "(if ", "(for ", "(while "))
     # a statement with at least one operator / call / conversion
     return len(f) >= 5 and any(k in f[4] for k in ("(un ", "(bin ", "(tern ", "(call ", "(ret ", "(init "))
 
@@ -62,6 +66,33 @@ def finding_key(req, obs, detail):
               (pa[0] == "s" and pb[0] == "v" and pb[2] == "1" and pa[1] == pb[1])
         if (one or la == lb) and "c" not in ma:
             return "rvalue passed to out/inout parameter: T <-> T1 or modifier-only conversion of an lvalue argument"
+    if re.match(r"FAIL:swizzle with \d+ components$", d):
+        return "scalar / vector swizzle with more than four components"
+    if re.match(r"FAIL:inexact default argument: requires (\S+) but receives (\S+)", d):
+        return "default argument is neither checked against nor converted to the parameter type"
+    m = re.match(r"FAIL:(assignment|increment|out/inout argument) writes to a const object per the declarations: (\S+)$", d)
+    if m:
+        path = m.group(2)
+        # the last const mark of the access path is followed by a struct member projection: the checker types a member of a
+        # const struct with the member's declared type alone (`const` of the object is lost)
+        # a member of a constant buffer: its type is registered without const (unlike extern globals)
+        if path.startswith("cbuffer") and not re.search(r"^cbuffer(\[a\])?:c.*:c", path):
+            return "write to a member of a constant buffer (cbuffer members are not registered as const)"
+        if re.search(r":c[^:]*>mem", path):
+            return "write through a struct member of a const object (StructMember drops the object's const)"
+        # a whole array whose elements are const: the array type itself carries no modifier
+        if re.fullmatch(r"(var|global)\[a\]:c(>assigned)*", path):
+            return "assignment to a whole array of const elements (the array type carries no const)"
+        return "write to const per the declarations: %s" % path
+    m = re.match(r"FAIL:(assignment|increment|out/inout argument) writes to a non-lvalue per the declarations: (\S+)$", d)
+    if m:
+        path = m.group(2)
+        # an element of a value that is not an lvalue (function result, a + b, constructor, cast, a swizzle naming a
+        # component twice): ArraySubscript is typed
+        # as an lvalue whatever its operand is
+        if re.search(r"(^(call|op|ctor|cast|tern|lit)|\[dup\])(>mem|>swz|>mswz)*>idx\[[avm]\]", path):
+            return "write through a subscript of an rvalue (ArraySubscript is always typed as an lvalue)"
+        return "write to a non-lvalue per the declarations: %s" % path
     m = re.match(r"FAIL:increment of a non-numeric operand: (\S+)$", d)
     if m and m.group(1).split("/")[1].split(".")[0] in ("o", "e"):
         return "increment of a non-numeric operand: struct / enum / object"
@@ -76,6 +107,18 @@ def finding_key(req, obs, detail):
 def shrink(req):
     """replace the statement's expression by one of its sub-expressions (as an expression statement)"""
     f = req.split("\t")
+    if f[0] == "C03.progx" and len(f) == 7:
+        s = f[5]
+        starts = []
+        for i, c in enumerate(s):
+            if c == "(":
+                starts.append(i)
+            elif c == ")":
+                j = starts.pop()
+                sub = s[j:i + 1]
+                if len(starts) >= 2 and sub.split(" ")[0] in ("(un", "(bin", "(tern", "(call", "(icall", "(cast", "(mem", "(idx", "(ctor"):
+                    yield "\t".join(f[:5] + ["(block (expr %s))" % sub, "any"])
+        return
     if f[0] != "C03.prog" or len(f) != 6:
         return
     s = f[4]
@@ -124,13 +167,50 @@ def search(ctx):
             reqs.append("C03.prog\t%s\t%s\t(ret %s)\tany" % (env, ret, x))
         for t in VARS:
             reqs.append("C03.prog\t%s\t-/s.Float32\t(init %s %s)\tany" % (env, t, x))
+    reqs += search_ext()
+    return reqs
+
+
+XOTHERS = "S(q:-/s.Int32,v:-/v.Float32.3,a:-/o.1,m:-/m.Float32.2.2);A(-/s.Float32,2);A(c/s.Float32,2);A(-/v.Float32.3,2)"
+XVARS = ["-/s.Float32", "-/v.Float32.3", "-/m.Float32.2.2", "-/o.0", "-/o.1", "-/o.3", "c/s.Float32", "c/v.Float32.3", "c/m.Float32.2.2",
+         "c/o.0", "-/o.2", "g:c/v.Float32.3", "g:c/m.Float32.2.2", "g:c/o.0", "p:c/m.Float32.2.2", "s:-/o.0", "-/s.Int32", "-/s.Bool"]
+XFUNCS = "0:0:-/v.Float32.3:;1:0:-/o.0:;2:1:-/s.Int32:out/-/s.Float32;3:1:-/s.Int32:inout/-/v.Float32.2;4:0:-/m.Float32.2.2:"
+XPROJ = ["(mem %s x)", "(mem %s xy)", "(mem %s xx)", "(mem %s q)", "(mem %s v)", "(mem %s a)", "(mem %s m)", "(mem %s _m00)",
+         "(mem %s _m00_m11)", "(mem %s _m00_m00)", "(idx %s (lit IntLiteral))"]
+
+
+def search_ext():
+    """the extended language: reads and writes (assignment, compound assignment, ++, out / inout arguments of a user and of an
+    intrinsic function) through projection chains of length 1 and 2 on every kind of base, constructors, aggregates"""
+    env = XOTHERS + "\t" + ",".join(XVARS) + "\t" + XFUNCS
+    bases = ["(var %d)" % i for i in range(len(XVARS))] + ["(call 0)", "(call 1)", "(call 4)", "(bin Add (var 1) (var 1))",
+                                                          "(ctor -/v.Float32.3 (var 1))", "(cast -/v.Float32.3 (var 1))"]
+    chains = []
+    for b in bases:
+        one = [p % b for p in XPROJ]
+        chains += one
+        for c in one:
+            chains += [p % c for p in XPROJ[:1] + XPROJ[-1:]]
+    reqs = []
+    for c in chains:
+        for body in ("(expr %s)" % c, "(expr (bin Assignment %s (lit IntLiteral)))" % c,
+                     "(expr (un PrefixIncrement %s))" % c, "(expr (call 2 %s))" % c,
+                     "(expr (icall sincos (var 0) %s (var 0)))" % c):
+            reqs.append("C03.progx\t%s\tvoid\t(block %s)\tany" % (env, body))
+    for t in ("-/s.Float32", "-/v.Float32.3", "-/m.Float32.2.2", "-/o.0"):
+        for a in ("(var 0)", "(var 1)", "(var 2)", "(var 3)", "(mem (var 1) xy)"):
+            reqs.append("C03.progx\t%s\tvoid\t(block (expr (ctor %s %s)))\tany" % (env, t, a))
+            reqs.append("C03.progx\t%s\tvoid\t(block (expr (ctor %s %s %s)))\tany" % (env, t, a, a))
+            reqs.append("C03.progx\t%s\tvoid\t(block (decl %s (agg %s %s)))\tany" % (env, t, a, a))
+            reqs.append("C03.progx\t%s\tvoid\t(block (decl %s (agg %s %s %s)))\tany" % (env, t, a, a, a))
+            reqs.append("C03.progx\t%s\t%s\t(block (if (var 17) (ret %s)))\tany" % (env, t, a))
     return reqs
 
 
 SPEC = {
     "id": "C03",
-    "gens": ["RankTable", "TypingTables"],
-    "lean_modules": ["RsslVerif.Thm.C03"],
+    "gens": ["RankTable", "TypingTables", "IntrinsicSigs", "ElabTables"],
+    "lean_modules": ["RsslVerif.Thm.C03", "RsslVerif.Thm.C03X"],
     "theorems": [T + n for n in [
         "find_sound", "find_rejects_rvalue_to_lvalue", "find_keeps_const",
         "elab_sound", "elab_debug_check_redundant", "elabStmt_sound", "ids_in_range",
@@ -140,47 +220,93 @@ SPEC = {
         "elab_rejects_assign_to_rvalue_form", "elab_rejects_increment_of_rvalue_form",
         "assignment_operands", "binary_operands_equal", "binop_rules",
         "elab_assign_exact", "elab_arith_exact", "elab_call_args_exact",
-        "out_arg_receives_cast"]],
+        "out_arg_receives_cast"]] + [TX + n for n in [
+        # the extended language (swizzles, members, subscripts, constructors, intrinsic functions, statements)
+        "elab_sound", "elab_debug_check_redundant", "elab_stmt_sound", "ids_in_range",
+        "elab_rejects_const_write", "elab_rejects_rvalue_write", "elab_rejects_rvalue_out_arg",
+        "elab_rejects_assign_to_const", "elab_rejects_assign_to_rvalue", "elab_rejects_increment",
+        "elab_rejects_call", "elab_rejects_arity", "elab_rejects_unconvertible", "elab_rejects_out_arg_rvalue",
+        "elab_rejects_out_arg_const", "elab_rejects_assign_to_rvalue_form", "elab_rejects_increment_of_rvalue_form",
+        "elab_rejects_return_type", "elab_rejects_return_in_void", "elab_rejects_return_void", "elab_rejects_init_type",
+        "elab_rejects_aggregate_dimension", "elab_rejects_aggregate_matrix",
+        "elab_rejects_ctor_count", "elab_rejects_ctor_of_non_numeric", "elab_ctor_exact",
+        "elab_rejects_index_type", "elab_index_exact", "elab_rejects_write_to_repeated_swizzle",
+        "matrix_swizzle_at_most_four", "vector_swizzle_longer_than_four_accepted",
+        "elab_rejects_const_write_chain", "elab_rejects_const_increment_chain", "elab_rejects_const_array_write_chain",
+        "elab_rejects_const_out_arg_chain", "elab_rejects_readonly_resource_write_chain", "elab_rejects_rvalue_write_chain_partial",
+        "elab_rejects_rvalue_out_arg_chain_partial",
+        "assignment_operands", "binary_operands_equal", "binop_rules",
+        "elab_assign_exact", "elab_arith_exact", "elab_call_args_exact", "elab_intrinsic_call_exact",
+        "resource_index_widths", "resource_element_constness",
+        "swizzle_in_range", "matrix_swizzle_in_range", "member_of_struct", "ctor_slots_exact",
+        "const_struct_member_write_accepted", "rvalue_subscript_write_accepted", "const_array_assignment_accepted"]],
     "harness": "c03",
     "nontrivial": nontrivial,
     "finding_key": finding_key,
     "shrink": shrink,
     "search": search,
-    "level_text": "Proof: for the model of expression elaboration (literals, variables, unary / binary / assignment operators, "
-                  "?:, user-function calls with overload resolution and in/out/inout parameters, casts, return, initialisers) "
-                  "it is proved by induction over all expressions that an accepted expression has the computed type under the "
-                  "IR's own typing judgment (get_type / get_return_type with their asserts as premises), with every "
-                  "sub-expression typed, and that writes to const or rvalue expressions, rvalue/const arguments to out/inout "
-                  "parameters, wrong arity, unconvertible arguments and wrong return types are never accepted. Soundness of "
-                  "ImplicitConversion::find (target = requested type) and of elaboration holds at full strength for debug "
-                  "and release builds (the debug-only type query is proved redundant); the one remaining witness is an "
-                  "rvalue cast reaching an out parameter.",
+    "level_text": "Proof: for the model of elaboration — expressions (literals, variables, unary / binary / assignment operators, ?:, "
+                  "calls of user functions and of the intrinsic functions of the re-extracted signature table with overload "
+                  "resolution and in/out/inout parameters, casts, member access / vector, scalar and matrix swizzles, subscripts of "
+                  "arrays / vectors / matrices / buffers / textures, numeric constructors) and statements (expression, return, definitions with "
+                  "expression and aggregate initialisers, blocks, if / for / while / do / switch with their scopes) — it is proved "
+                  "by mutual structural induction over all expressions and statements, for debug and release builds, that an "
+                  "accepted expression has the computed type under the IR's own typing judgment (get_type / get_return_type with "
+                  "their asserts as premises, strengthened for the new nodes: swizzle slots in range, struct member taken from that "
+                  "struct, constructor slot contract), that every expression on every path of an accepted statement list is typed, "
+                  "returns / initialisers (every leaf of an aggregate) have exactly the required type, and that writes (assignment "
+                  "family, ++/--, out/inout arguments of user and intrinsic functions) to const or rvalue expressions — including "
+                  "through projection chains of any length (swizzles, subscripts) on const scalars / vectors / matrices, arrays "
+                  "of const elements and read-only resources —, wrong arity, unconvertible arguments, wrong return / initialiser types, wrong constructor "
+                  "component counts and non-integer subscripts are never accepted. Where the full statement is false on the code it "
+                  "is proved partially and the negation is a decide-checked witness replayed on the implementation: a member of a "
+                  "const struct is written, an element of a non-lvalue is written, an array of const elements is assigned, an "
+                  "rvalue cast reaches an out parameter.",
     "rule": "C03.conv = one row of the exhaustive find/get_target_type table over 8 scalar kinds x {scalar, vec1-4, 2 matrices} "
             "+ enums + structs x modifier sets x {lvalue,rvalue}. C03.prog = (local variable types, function prototypes, return "
             "type, one statement) compiled as an RSSL program through the real type_check: every unary operator on every "
             "operand, binary/assignment/ternary operators on operand pairs, calls, returns, initialisers, templates that are "
-            "well-typed by construction, the same with ONE injected violation (write to const / rvalue literal, sum, call, "
-            "cast, postfix, ternary; ++ on const / rvalue; rvalue or const to out / inout; wrong arity; unconvertible "
-            "argument; wrong return or initialiser type), a stream over volatile / row_major / column_major variables and "
-            "random expressions of depth 1-3; accepted modules are walked node by node (get_type under guard + operand "
-            "exactness oracle). C03.type = the typed statement the real checker produced, re-typed node by node by the real "
-            "get_type and by the model's typeOf. non-trivial = a statement containing an operator, call or conversion.",
+            "well-typed by construction, the same with ONE injected violation, a stream over volatile / row_major / "
+            "column_major variables and random expressions of depth 1-3 (each also run through the extended model: the two "
+            "models must agree). C03.progx = (type definitions: structs with named members, arrays; variables of kind local / "
+            "extern global / static global / parameter; prototypes; return type; a statement list) through the real type_check: "
+            "every member name on every operand; reads, assignments, compound assignments, ++/--, user and intrinsic out/inout "
+            "arguments through access paths and through all type-directed projection chains up to depth 3 on const and non-const "
+            "bases of every kind and on non-lvalue bases; subscripts; constructors with 0-4 arguments; 64 intrinsic names at "
+            "their arities with every operand kind; injected violations; definitions with expression and aggregate initialisers "
+            "(right / wrong counts, nesting, wrong item types); conditions of every type in every statement kind; scopes; "
+            "returns at several nesting depths; random statement trees and expressions. Accepted modules are walked node by "
+            "node (get_type under guard + exactness oracle + declaration-based write oracle). C03.type / C03.typex = the typed "
+            "expression the real checker produced, re-typed node by node by the real get_type and by the model's typeOf. "
+            "C03.src = a raw program (reproducers with buffers / cbuffers), oracle only. non-trivial = a statement containing an "
+            "operator, call, projection, constructor, definition or control statement.",
     "trusted_base": [
         "Lean 4.33 kernel; axioms propext / Classical.choice / Quot.sound only (audited by #print axioms)",
         "tools/gens/c16.py (RankTable) and tools/gens/c03.py (TypingTables: IntrinsicOp, the asserts and result shape of every "
         "arm of get_return_type, ast BinOp/UnaryOp, the operator maps / classes / require_integer / short-circuit lists of "
         "parse_expr_binop, get_non_vector_conversion_rank, most_sig_scalar::get_order, is_integer_or_bool_or_enum, the "
-        "literal re-tagging tables of ImplicitConversion::apply) — re-run on /repo's working tree every time",
-        "hand-written Model/Conv.lean (find, get_target_type), Model/Ty.lean (registry helpers, select_vector_rank, "
-        "most_significant_dimension), Model/IrTyping.lean (get_type) and Model/Elab.lean (parse_expr_*, apply, return, "
-        "initialiser) — tied to the code by the correspondence run only",
-        "the harness oracle (harness/src/c03.rs check rules) is our reading of 'exactly the types it requires'",
+        "literal re-tagging tables of ImplicitConversion::apply; IntrinsicSigs: the INTRINSICS table expanded as add_intrinsics "
+        "registers it; ElabTables: the swizzle character tables and the arm lists of member access / subscript / aggregate "
+        "initialiser) — re-run on /repo's working tree every time",
+        "hand-written Model/Conv.lean (find, get_target_type), Model/Ty.lean, Model/IrTyping.lean + IrTypingX.lean (get_type), "
+        "Model/Elab.lean + ElabX.lean (parse_expr_*, apply, member access, read_matrix_subscript, subscripts, constructors), "
+        "Model/StmtX.lean (parse_statement, parse_initializer, scopes), Model/Intrinsics.lean — tied to the code by the "
+        "correspondence run only",
+        "Spec/ElabX.lean (StmtsTyped, InitTyped, RetExact, projection chains) is our reading of 'every initialiser, return ... "
+        "receives operands of exactly the types it requires'",
+        "the harness oracle (harness/src/c03.rs: check rules of Walk::expr, the declaration-based write oracle Walk::place) is "
+        "our reading of 'exactly the types it requires' and of 'write to const or non-lvalue expressions'",
     ],
     "assumptions": [
-        "TypeId equality is structural equality of types (the type registry hash-conses layers)",
+        "TypeId equality is structural equality of types (the type registry hash-conses layers); a request does not define the "
+        "same array type twice",
         "the harness is a debug build (parse_expr_internal re-derives the type of every node); the theorems cover both build "
         "modes and prove that this query never fires",
-        "no templates, methods, swizzles, subscripts, constructors, enums inside operators (reached by the IR walk only)",
-        "signature parameter types carry no modifier (parse_function_signature strips them)",
+        "outside the model (answered `unsupported`, reached by the IR walk only): objects other than the subscript of "
+        "buffers / textures (ConstantBuffer, samplers, `.mips`, RayDesc), methods, templates (DispatchMesh), enums inside operators, sizeof, case labels that are not literals",
+        "variables of the generated programs have unique names v<i>; a definition declares one variable; user function "
+        "parameters are not arrays",
+        "signature parameter types carry no modifier: strip_param_type is mirrored by ElabX.stripParamType (applied by the "
+        "driver to the declared parameter types of the extended requests; the old C03.prog requests declare none)",
     ],
 }
